@@ -509,7 +509,15 @@ func TestC14(t *testing.T) {
 		acts := map[string]func(){
 			"next": next, "next2": next, "next3": next, "fork": fork, "fork2": fork, "below": below, "reinsert": reinsert,
 			"ownMomentum": ownMomentum, "foreignMomentum": foreignMomentum, "reorg": reorg, "staleOwnMomentum": staleOwnMomentum, "staleOwnMomentum2": staleOwnMomentum,
-			"call":    func() { h.ActIntent(); model.resync(a, users) },
+			// some model-guided calls let time pass first (momentums are produced inside the action): the model follows them
+			"call": func() {
+				before := a.Height()
+				h.ActIntent()
+				if a.Height() != before {
+					model.afterMomentum(a, users)
+				}
+				model.resync(a, users)
+			},
 			"callABI": func() { h.ActCallABI(); model.resync(a, users) },
 		}
 		c.Repeat(acts, inv)
